@@ -47,6 +47,8 @@ def c07_meshes():
 
 def field_lists(names):
     out = [[names[0]], list(names) + ['grid_level'], ['all'], ['grid_level', names[-1]]]
+    if len(names) > 1:
+        out.append(list(names)[::-1])         # not in the plotfile's order
     return out
 
 
